@@ -1,4 +1,5 @@
 //! Re-exports of accessors that live in private sub-modules of `filesystem`
 //! (crate::filesystem::vk_fs).
 #![allow(unused_imports)]
-pub use super::handles::vk_handles::next_id;
+pub(crate) use super::handles::vk_handles::next_id;
+pub(crate) use super::filename::vk_lfn::{stub_lfn_as_str, stub_lfn_clear, stub_lfn_push, LFN_CLEARS, LFN_PUSHES};
